@@ -628,3 +628,71 @@ pub mod journal {
         Some((opts, events))
     }
 }
+
+/// Spellings whose transliteration contains a joiner (ZWJ after `rZ`, ZWNJ after `,,`) while the dictionary has the
+/// same word WITHOUT the joiner - confirmed by the independent oracle (the dictionary word is a direct candidate of
+/// the spelling, and avro(spelling) differs from it only by joiners).  Up to `max` of each kind.
+pub fn joiner_spellings(max: usize) -> &'static Vec<(String, String)> {
+    static G: OnceLock<Vec<(String, String)>> = OnceLock::new();
+    G.get_or_init(|| {
+        let mut out: Vec<(String, String)> = vec![];
+        let (mut n_rz, mut n_cc) = (0usize, 0usize);
+        let strip = |s: &str| -> String { s.chars().filter(|c| *c != '\u{200C}' && *c != '\u{200D}').collect() };
+        for w in model::data().all_words.iter().step_by(7) {
+            let cs: Vec<char> = w.chars().collect();
+            if !(3..=8).contains(&cs.len()) || n_rz >= max && n_cc >= max {
+                continue;
+            }
+            // position of the first hasanta between two consonants
+            let Some(h) = (1..cs.len() - 1).find(|i| cs[*i] == '\u{09CD}' && model::is_consonant(cs[*i - 1]) && model::is_consonant(cs[*i + 1])) else { continue };
+            let toks: Option<Vec<&'static str>> = cs.iter().map(|c| rom_char(*c)).collect();
+            let Some(toks) = toks else { continue };
+            let is_rz = cs[h - 1] == '\u{09B0}' && cs[h + 1] == '\u{09AF}';
+            if is_rz && n_rz >= max || !is_rz && n_cc >= max {
+                continue;
+            }
+            // spelling: tokens, with the cluster written as "rZ" or C1 ",," C2; an 'o' is tried at the other gaps
+            let gaps: Vec<usize> = (0..cs.len() - 1).filter(|i| *i != h - 1 && *i != h && !toks[*i].is_empty() && !toks[*i + 1].is_empty()).collect();
+            let mut found = None;
+            let mut masks: Vec<u32> = (0..(1u32 << gaps.len().min(6))).collect();
+            masks.sort_by_key(|m| m.count_ones());
+            for m in masks {
+                let mut sp = String::new();
+                for (i, t) in toks.iter().enumerate() {
+                    if i == h {
+                        continue;
+                    }
+                    if i == h + 1 {
+                        if is_rz {
+                            sp.push('Z');
+                        } else {
+                            sp.push_str(",,");
+                            sp.push_str(t);
+                        }
+                    } else {
+                        sp.push_str(t);
+                    }
+                    if let Some(gi) = gaps.iter().position(|g| *g == i) {
+                        if gi < 6 && m & (1 << gi) != 0 {
+                            sp.push('o');
+                        }
+                    }
+                }
+                let tr = model::avro(&sp);
+                if tr != *w && strip(&tr) == *w && crate::phon::is_direct_dict(&sp, w) {
+                    found = Some(sp);
+                    break;
+                }
+            }
+            if let Some(sp) = found {
+                if is_rz {
+                    n_rz += 1;
+                } else {
+                    n_cc += 1;
+                }
+                out.push((sp, w.clone()));
+            }
+        }
+        out
+    })
+}
